@@ -701,7 +701,14 @@ def main(ctx):
         rec.ok(case, outcome="longchunk:%s:%s" % (shape, route), nontrivial=(d == 0))
 
     from mc.longarr import marks as _marks
-    cmarks = (100000,) + tuple(_marks(ctx)) + ctx.pick((), (65536, 1000000))          # universal marks, see mc/longarr.py
+    from mc.longarr import harvest_lengths
+    import esutil.recfile.Util as _ru
+    import esutil.sfile as _sm
+    _hl, _hb = harvest_lengths([_sm, _ru], ["recfile"])
+    # universal marks (mc/longarr.py) + block sizes harvested from the integer constants of the code under test
+    cmarks = (100000,) + tuple(_marks(ctx)) + ctx.pick((), (65536, 1000000)) + tuple(b for b in _hb if b >= 1000)
+    cmarks = tuple(dict.fromkeys(cmarks))
+    ctx.notes.append("chunks-at-block-marks: integer constants harvested from sfile.py, recfile/Util.py, recfile/*.cpp: %r" % (_hb,))
     lcunits = [(m, d, sh, dl, rt) for m in cmarks for d in (-1, 0, 1) for sh in ("long-short", "short-long", "long-long", "short-long-short")
                for dl in (None, ",") for rt in ("append-by-reopen", "one-handle", "recfile")
                if not (dl == "," and (m > 100000 or d != 0))]
